@@ -221,7 +221,12 @@ def run_stock(kind, grid, lt, quad, extra, shapes, driver, via="ctor", int_dtype
         cls = flodym.StockDrivenDSM
         which = "stock"
         kw["solver"] = kind.split("-")[1]
-    if pass_arrays or int_dtype:
+    if pass_arrays == "F":
+        # all three arrays are handed in, each holding a Fortran-ordered (non C-contiguous) buffer
+        for nm in ("stock", "inflow", "outflow"):
+            kw[nm] = flodym.StockArray(dims=dims, values=np.asfortranarray(dv.copy() if nm == which else np.zeros(shape)))
+        s = cls(dims=dims, lifetime_model=lm, **kw)
+    elif pass_arrays or int_dtype:
         kw[which] = flodym.StockArray(dims=dims, values=dv.copy())
         s = cls(dims=dims, lifetime_model=lm, **kw)
     else:
